@@ -285,7 +285,8 @@ pub fn check_visual(
                         format!("{}|vpcC.fields", where_),
                         format!("vpcC (profile,depth,colour,transfer,matrix) = {:?} ; first keyframe / supplied = {:?}", got, (profile, depth, cs, tf, mc)),
                     ));
-                } else if cs != 0 && c.full_range != fr {
+                } else if c.full_range != fr {
+                    // (for colour space 0 the documented reading is "limited range": model::vp9::expect)
                     out.push(v(format!("{}|vpcC.full_range", where_), format!("vpcC full range {} ; keyframe {}", c.full_range, fr)));
                 }
                 obs.count("vpcC_checked", 1);
